@@ -34,7 +34,7 @@ CRATE = "fast-tlsh"
 BUILD = os.path.join(VERIF, ".build")
 SCRATCH_ROOT = os.environ.get("VERIF_SCRATCH", "/var/tmp/fast-tlsh-verif")
 HARNESS_DIR = os.path.join(VERIF, "harness")
-EVIDENCE_DIR = os.path.join(VERIF, "evidence")
+EVIDENCE_DIR = os.environ.get("VERIF_EVIDENCE_DIR", os.path.join(VERIF, "evidence"))
 REPLAY_DIR = os.path.join(EVIDENCE_DIR, "replay")
 KNOWN = os.path.join(VERIF, "known_findings.json")
 NCPU = int(os.environ.get("VERIF_JOBS", str(os.cpu_count() or 8)))
@@ -520,10 +520,10 @@ def cmd_check(args):
     ev_path = os.path.join(EVIDENCE_DIR, "%s.json" % prop)
     if os.path.exists(ev_path) and not args.only:
         os.remove(ev_path)
-    logdir = os.path.join(BUILD, "logs", "%s-%s" % (prop, tier))
+    logdir = os.path.join(BUILD, "logs", "%s-%s%s" % (prop, tier, os.environ.get("VERIF_TAG", "")))
     shutil.rmtree(logdir, ignore_errors=True)
     os.makedirs(logdir)
-    root, crate_dir = make_overlay("%s-%s" % (prop, tier))
+    root, crate_dir = make_overlay("%s-%s%s" % (prop, tier, os.environ.get("VERIF_TAG", "")))
     known = load_known()
     exit_code = 0
     try:
